@@ -256,3 +256,67 @@ Theorem C04_udp_reflection_closes_session_refuted :
     session_in client sid (udp_recv_all op pm ld (ds1 ++ ds2)).
 Proof. exact udp_reflection_closes_session_refuted. Qed.
 Print Assumptions C04_udp_reflection_closes_session_refuted.
+
+(* UDP, replayed copies: for every sender payload list and every history of authentic datagrams handed to a session -
+   data, open request / response (sequence number 0, through recvBuf like data), close request / response, acks - a
+   second copy of ANY of them inserted at ANY later point leaves nextRecv, the bytes released to the application and the
+   open / closed state exactly as without the copy: a copy never advances nextRecv past an undelivered sequence number *)
+Theorem C04_udp_replayed_copy_is_idempotent :
+  forall (sent : list (list N)) (evs1 : list uevent) (e : uevent) (evs2 evs3 : list uevent),
+    Forall (genuine sent) (evs1 ++ e :: evs2 ++ evs3) ->
+    let a := u_run (evs1 ++ e :: evs2 ++ e :: evs3) in
+    let b := u_run (evs1 ++ e :: evs2 ++ evs3) in
+    u_next a = u_next b /\ u_q a = u_q b /\ u_closed a = u_closed b.
+Proof. exact udp_replayed_copy_is_idempotent. Qed.
+Print Assumptions C04_udp_replayed_copy_is_idempotent.
+
+Theorem C04_udp_replay_example :
+  u_next (u_run [UArrive 0 []; UArrive 1 [5]; UArrive 2 [6]; UArrive 0 []; UArrive 3 [7]]) = 4%nat /\
+  u_q (u_run [UArrive 0 []; UArrive 1 [5]; UArrive 2 [6]; UArrive 0 []; UArrive 3 [7]]) = [[]; [5]; [6]; [7]].
+Proof. exact ex_replay. Qed.
+Print Assumptions C04_udp_replay_example.
+
+(* TCP, start at a segment boundary: under the premises of C04_tcp_prefix_partial, a receiver that starts on the sender's
+   nonce advanced over the boxes of the leading segments [pre] (the header rewrite of the finding; or a whole stream,
+   pre = []) delivers a contiguous run of the sender's segments from that boundary - this is exactly how far the
+   refuted prefix statement fails *)
+Theorem C04_tcp_infix_from_boundary :
+  forall (open : list N -> list N -> option (list N)) (parse_meta : list N -> option minfo)
+         (le_decode : leparams -> N -> list N -> option (list N)) (marshal_meta : minfo -> list N)
+         (le_len : leparams -> N -> N) (segs : list segment) (n0 : list N),
+    (forall n c p, open n c = Some p ->
+       exists k, n = nonce_add k n0 /\ nth_error (stream_boxes marshal_meta le_len segs) k = Some p) ->
+    (forall i k, (i <= length (stream_boxes marshal_meta le_len segs))%nat ->
+       (k < length (stream_boxes marshal_meta le_len segs))%nat -> nonce_add i n0 = nonce_add k n0 -> i = k) ->
+    (forall s, In s segs -> parse_meta (marshal_meta (fill_meta le_len s)) = Some (fill_meta le_len s) /\
+                            (mi_plen (fill_meta le_len s) =? 0) = is_nil (s_payload s)) ->
+    length n0 = nonceLen ->
+    forall pre l rest, segs = pre ++ l ->
+      exists m, fst (feed open parse_meta le_decode r_init
+                       (nonce_add (length (stream_boxes marshal_meta le_len pre)) n0 ++ rest)) =
+                map (deliver le_len) (firstn m l).
+Proof. exact tcp_infix_from_boundary. Qed.
+Print Assumptions C04_tcp_infix_from_boundary.
+
+(* TCP, cross-connection splice: the downstream bytes of ANOTHER connection (same user, same key: every box opens) fed to
+   a receiver - the whole stream or from any segment boundary, followed by anything - hand NOTHING to a session whose id
+   is not among the session ids of that other connection.  The premise "live session ids of one user are distinct" is
+   what the code relies on (ids are drawn at random per dial); the driver checks it on muxes created in the same second. *)
+Theorem C04_tcp_cross_connection_splice_refused :
+  forall (open : list N -> list N -> option (list N)) (parse_meta : list N -> option minfo)
+         (le_decode : leparams -> N -> list N -> option (list N)) (marshal_meta : minfo -> list N)
+         (le_len : leparams -> N -> N) (segs : list segment) (n0 : list N),
+    (forall n c p, open n c = Some p ->
+       exists k, n = nonce_add k n0 /\ nth_error (stream_boxes marshal_meta le_len segs) k = Some p) ->
+    (forall i k, (i <= length (stream_boxes marshal_meta le_len segs))%nat ->
+       (k < length (stream_boxes marshal_meta le_len segs))%nat -> nonce_add i n0 = nonce_add k n0 -> i = k) ->
+    (forall s, In s segs -> parse_meta (marshal_meta (fill_meta le_len s)) = Some (fill_meta le_len s) /\
+                            (mi_plen (fill_meta le_len s) =? 0) = is_nil (s_payload s)) ->
+    length n0 = nonceLen ->
+    forall (client : bool) (sidB : N),
+      Forall (fun s => mi_sid (s_meta s) <> sidB) segs ->
+      forall pre l rest, segs = pre ++ l ->
+        session_in client sidB (fst (feed open parse_meta le_decode r_init
+                                       (nonce_add (length (stream_boxes marshal_meta le_len pre)) n0 ++ rest))) = [].
+Proof. exact tcp_cross_connection_splice_refused. Qed.
+Print Assumptions C04_tcp_cross_connection_splice_refused.
